@@ -526,6 +526,11 @@ def check_enum(ctx, case):
         ctx.count('enum_ranges')
         listings.append(('rows', grid_of('rows', lambda: a.rows), R.cells_by_row(spec)))
         listings.append(('cols', grid_of('cols', lambda: a.cols), R.cells_by_col(spec)))
+        # the lines taken first and read afterwards (rows = list(a.rows); zip(*a.rows)): the same cells
+        listings.append(('rows-taken-first', grid_of('rows-taken-first', lambda: list(a.rows)),
+                         R.cells_by_row(spec)))
+        listings.append(('cols-taken-first', grid_of('cols-taken-first', lambda: list(a.cols)),
+                         R.cells_by_col(spec)))
     listings.append(('resolve_range', grid_of('resolve_range', lambda: a.resolve_range), R.cells_by_row(spec)))
     members = None
     for name, got, want in listings:
